@@ -70,11 +70,26 @@ func GetImageFromUri(cache Cache, fetcher utils.UrlFetcher, optimizeSize bool, u
 
 // without caching
 func getImageFromUri(fetcher utils.UrlFetcher, optimizeSize bool, url, forcedMimeType string, orientation pr.SBoolFloat) (Image, error) {
+	return loadImage(fetcher, optimizeSize, url, forcedMimeType, orientation, nil)
+}
+
+// [loading] holds the urls of the images being loaded: an SVG image may embed
+// other images, and so itself (directly or not)
+func loadImage(fetcher utils.UrlFetcher, optimizeSize bool, url, forcedMimeType string, orientation pr.SBoolFloat, loading utils.Set) (Image, error) {
 	var (
 		img     Image
 		err     error
 		content utils.RemoteRessource
 	)
+
+	if loading.Has(url) {
+		return nil, fmt.Errorf(`cyclic reference to the image at "%s"`, url)
+	}
+	if loading == nil {
+		loading = utils.NewSet()
+	}
+	loading.Add(url)
+	defer delete(loading, url)
 
 	content, err = fetcher(url)
 	if err != nil {
@@ -91,7 +106,7 @@ func getImageFromUri(fetcher utils.UrlFetcher, optimizeSize bool, url, forcedMim
 	// Try to rely on given mimetype for SVG
 	if mimeType == "image/svg+xml" {
 		var svgIm SVGImage
-		svgIm, errSvg = NewSVGImage(content.Content, url, fetcher)
+		svgIm, errSvg = newSVGImage(content.Content, url, fetcher, loading)
 		if errSvg == nil {
 			img = svgIm
 		}
@@ -109,7 +124,7 @@ func getImageFromUri(fetcher utils.UrlFetcher, optimizeSize bool, url, forcedMim
 
 			// Last chance, try SVG in case mime type is incorrect
 			content.Content.Seek(0, io.SeekStart)
-			img, errSvg = NewSVGImage(content.Content, url, fetcher)
+			img, errSvg = newSVGImage(content.Content, url, fetcher, loading)
 			if errSvg != nil {
 				err = fmt.Errorf(`failed to load image at "%s" (%s)`, url, errRaster)
 				return nil, err
@@ -171,13 +186,18 @@ type SVGImage struct {
 func (SVGImage) isImage() {}
 
 func NewSVGImage(svgData io.Reader, baseURL string, urlFetcher utils.UrlFetcher) (SVGImage, error) {
+	return newSVGImage(svgData, baseURL, urlFetcher, nil)
+}
+
+// [loading] holds the urls of the images being loaded (see getImageFromUri)
+func newSVGImage(svgData io.Reader, baseURL string, urlFetcher utils.UrlFetcher, loading utils.Set) (SVGImage, error) {
 	// don’t pass data URIs: they are useless for relative URIs anyway.
 	if strings.HasPrefix(strings.ToLower(baseURL), "data:") {
 		baseURL = ""
 	}
 
 	imageLoader := func(url string) (backend.Image, error) {
-		return getImageFromUri(urlFetcher, false, url, "", pr.SBoolFloat{})
+		return loadImage(urlFetcher, false, url, "", pr.SBoolFloat{}, loading)
 	}
 
 	var err error
